@@ -194,8 +194,21 @@ def xlsx(variant: str) -> tuple[bytes, dict]:
         cells = "".join(f'<c r="{c}1" t="inlineStr"><is><t>{_x(s)}</t></is></c>' for c, s in zip("ABCD", strings))
     else:
         cells = "".join(f'<c r="{c}1" t="s"><v>{i}</v></c>' for i, c in enumerate("ABCD"))
+    # values that compare equal across types (1.0 == 1 == True, 0.0 == 0 == False, and their texts): one workbook per spelling, and a mixed one
+    def vrow(r, kinds):
+        spell = {"double": [("n", "1.0"), ("n", "0.0"), ("n", "1E0"), ("n", "-0.0"), ("n", "2.50"), ("n", "1e2")], "bool": [("b", "1"), ("b", "0"), ("b", "1"), ("b", "0"), ("b", "1"), ("b", "0")],
+                 "int": [("n", "1"), ("n", "0"), ("n", "1"), ("n", "-0"), ("n", "2"), ("n", "100")], "text": [("t", "1"), ("t", "0.0"), ("t", "True"), ("t", "FALSE"), ("t", "1.0"), ("t", "100")]}
+        out = []
+        for i, (t, v) in enumerate(x for k in kinds for x in spell[k]):
+            ref = f"{chr(65 + i % 24)}{r}"
+            out.append(f'<c r="{ref}" t="inlineStr"><is><t>{v}</t></is></c>' if t == "t" else (f'<c r="{ref}" t="b"><v>{v}</v></c>' if t == "b" else f'<c r="{ref}"><v>{v}</v></c>'))
+        return f'<row r="{r}">{"".join(out)}</row>'
+    extra_rows = ""
+    if variant.startswith("vals-"):
+        kinds = ["double", "bool", "int", "text"] if variant == "vals-mixed" else [variant[5:]]
+        extra_rows = "".join(vrow(3 + j, [k]) for j, k in enumerate(kinds))
     sheet = ('<?xml version="1.0" encoding="UTF-8" standalone="yes"?><worksheet xmlns="http://schemas.openxmlformats.org/spreadsheetml/2006/main">'
-             f'<sheetData><row r="1">{cells}</row><row r="2"><c r="A2"><v>42</v></c></row></sheetData></worksheet>')
+             f'<sheetData><row r="1">{cells}</row><row r="2"><c r="A2"><v>42</v></c></row>{extra_rows}</sheetData></worksheet>')
     wb = ('<?xml version="1.0" encoding="UTF-8" standalone="yes"?><workbook xmlns="http://schemas.openxmlformats.org/spreadsheetml/2006/main" '
           'xmlns:r="http://schemas.openxmlformats.org/officeDocument/2006/relationships"><sheets><sheet name="Sheet1" sheetId="1" r:id="rId1"/></sheets></workbook>')
     rels = [f'<Relationship Id="rId1" Type="{_REL}worksheet" Target="worksheets/sheet1.xml"/>']
@@ -677,7 +690,7 @@ FAMILIES = {
     "rtf-cp": ("rtf", lambda v: rtf_codepage(*_rtf_variant(v)), ".rtf",
                [f"{'none' if cp is None else cp}" for cp in RTF_CODEPAGES] + ["1252:upper", "1251:upper", "1250:mixed", "1251:mixed", "none:mixed"]),
     "docx": ("docx", docx, ".docx", ["hfA", "hfB", "hfdangling", "hfnone", "hfother", "nometa", "notesA", "notesB", "notesdangling", "imgA", "imgB", "imgdangling", "styA", "styB"]),
-    "xlsx": ("xlsx", xlsx, ".xlsx", ["sstA", "sstB", "sstinline", "nometa"]),
+    "xlsx": ("xlsx", xlsx, ".xlsx", ["sstA", "sstB", "sstinline", "nometa", "vals-double", "vals-bool", "vals-int", "vals-text", "vals-mixed"]),
     "pptx": ("pptx", pptx, ".pptx", ["imgA", "imgB", "imgdangling", "cmA", "cmB", "cmdangling", "nometa", "plain"]),
     "odt": ("odt", lambda v: odf("odt", v), ".odt", ODF_META_FORMS),
     "ods": ("ods", lambda v: odf("ods", v), ".ods", ODF_META_FORMS),
@@ -734,6 +747,8 @@ def feature(src, kind: str = "") -> str:
              "unb-epub": "epub-unclosed-markup", "unb-epub-last": "epub-unclosed-markup", "unb-html": "html-unclosed-markup", "unb-mhtml": "mhtml-unclosed-markup"}
     if fam in fixed:
         return fixed[fam]
+    if var.startswith("vals"):
+        return fam + "-typed-values"
     if var in ("meta", "nometa", "emptymeta", "nostyles", "bare", "plain"):
         return fam + "-optional-parts"
     stem = re.sub(r"(A|B|C|D|E|dangling|none|other|inline)$", "", var)
@@ -756,6 +771,7 @@ def groups() -> list[dict]:
         g("docx:image-rid/package", "docx", ["imgA", "imgB", "imgdangling"]),
         g("docx:style-id/package", "docx", ["styA", "styB", "nometa"]),
         g("xlsx:shared-string-index/workbook", "xlsx", ["sstA", "sstB", "sstinline", "nometa"]),
+        g("xlsx:equal-values-of-different-types/cell-type", "xlsx", ["vals-double", "vals-bool", "vals-int", "vals-text", "vals-mixed"]),
         g("pptx:image-rid/package", "pptx", ["imgA", "imgB", "imgdangling"]),
         g("pptx:comment-part-name/package", "pptx", ["cmA", "cmB", "cmdangling", "plain", "nometa"]),
         g("epub:manifest-id/package", "epub", ["A", "B", "nometa"]),
